@@ -253,6 +253,7 @@ package bufimage
 //@   modifies filenameToUnusedImportFilenames
 //@   ensures keeps-earlier-reports: forall p string, q string :: p in old(filenameToUnusedImportFilenames) && q in old(filenameToUnusedImportFilenames)[p] ==> p in filenameToUnusedImportFilenames && q in filenameToUnusedImportFilenames[p]
 //@   ensures adds-only-the-reported-import: forall p string, q string :: p in filenameToUnusedImportFilenames && q in filenameToUnusedImportFilenames[p] ==> (p in old(filenameToUnusedImportFilenames) && q in old(filenameToUnusedImportFilenames)[p]) || (p == errorWithPos.GetPosition().Filename && q == cast(linker.ErrorUnusedImport, errorWithPos.Unwrap()).UnusedImport())
+//@   ensures inner-sets-exist: (forall p string :: p in old(filenameToUnusedImportFilenames) ==> old(filenameToUnusedImportFilenames)[p] != nil) ==> (forall p string :: p in filenameToUnusedImportFilenames ==> filenameToUnusedImportFilenames[p] != nil)
 //
 // (bufimage/util.go addFileWithImports / getImageWithImports / NewImage: the same DFS, under contract in
 // zz_verif_contracts_targeting.go, property C11.)
